@@ -96,12 +96,37 @@ std::string runN(std::size_t N, std::size_t M, const std::vector<u64> & sz) {
     return "unsupported";
   }
 }
+// plain array with a non-default index type IX: `arrix <bits> <n>` -> "ok <n> <reported size>" | "bad <description>"
+// (n may be exactly 2^bits: every index 0..n-1 is representable, the count itself is not)
+template <typename IX> std::string arrix(u64 n) {
+  using A = backend::array<vector::vector_d<T, 1>, IX>;
+  field<A> f(make_parameter_pack(typename A::configuration_t{n}));
+  u64 len = f.backend().get_configuration()[0];
+  if (len != n) return "bad reported size " + std::to_string(len) + " for " + std::to_string(n) + " constructed cells";
+  typename field<A>::view_t v(f);
+  for (u64 k = 0; k < n; ++k) v.at(static_cast<IX>(k))[0] = static_cast<T>(k + 1);
+  field<A> g(f);
+  std::stringstream ss; f.dump(ss); field<A> h(ss);
+  for (const field<A> * p : {&f, &g, &h}) {
+    if (p->backend().get_configuration()[0] != n) return std::string("bad size after ") + (p == &g ? "copy" : p == &h ? "dump/load" : "writes");
+    typename field<A>::view_t w(*p);
+    for (u64 k = 0; k < n; ++k) if (w.at(static_cast<IX>(k))[0] != static_cast<T>(k + 1))
+      return std::string("bad readback at ") + std::to_string(k) + (p == &g ? " (copy)" : p == &h ? " (dump/load)" : "");
+  }
+  return "ok " + std::to_string(n) + " " + std::to_string(len);
+}
 int main() {
   std::string line;
   while (std::getline(std::cin, line)) {
     std::istringstream is(line);
     std::string op, lay; std::size_t N = 0, M = 0;
-    is >> op >> lay >> N >> M;
+    is >> op;
+    if (op == "arrix") {
+      u64 bits = 0, n = 0; is >> bits >> n;
+      std::cout << (bits == 8 ? arrix<std::uint8_t>(n) : bits == 16 ? arrix<std::uint16_t>(n) : bits == 32 ? arrix<std::uint32_t>(n) : arrix<std::size_t>(n)) << std::endl;
+      continue;
+    }
+    is >> lay >> N >> M;
     std::vector<u64> sz(N); for (auto & s : sz) is >> s;
     std::string r = "unsupported";
     if (lay == "strided") r = runN<0>(N, M, sz);
